@@ -1,0 +1,80 @@
+//! Verification hooks. Only compiled with the cargo feature `verif-hooks`
+//! (off by default). With the feature on but no hook installed, the library
+//! behaves exactly as shipped: [`step`] is a load and a branch.
+//!
+//! A deterministic simulator installs one process-wide callback with
+//! [`set_step_hook`]. The engine calls [`step`] with a site id at the places
+//! where it touches per-matcher state, advances one of its loops, or reaches
+//! the process-wide block table; the callback may count the step, hand the
+//! CPU to another simulated caller thread, or unwind the calling thread.
+
+use std::sync::OnceLock;
+
+static STEP_HOOK: OnceLock<fn(u32)> = OnceLock::new();
+
+/// Install the process-wide step callback. Returns `false` if one was
+/// already installed (the first one stays).
+pub fn set_step_hook(f: fn(u32)) -> bool {
+    STEP_HOOK.set(f).is_ok()
+}
+
+/// Called by the engine at instrumented sites.
+#[inline]
+pub(crate) fn step(site: u32) {
+    if let Some(f) = STEP_HOOK.get() {
+        f(site)
+    }
+}
+
+/// Site ids; stable numbers, names appear in verification evidence.
+#[allow(missing_docs)]
+pub mod site {
+    pub const API_NEW: u32 = 1;
+    pub const API_IS_MATCH: u32 = 2;
+    pub const API_REPLACE_ALL: u32 = 3;
+    pub const API_TOKENIZE: u32 = 4;
+    pub const API_ANALYZE: u32 = 5;
+    pub const TOKEN_NEXT: u32 = 6;
+    pub const ANALYZE_NEXT: u32 = 7;
+    pub const MATCHES: u32 = 10;
+    pub const MATCHES_BOL_SEEK: u32 = 11;
+    pub const MATCHES_PREFIX: u32 = 12;
+    pub const MATCHES_FIRSTSET: u32 = 13;
+    pub const MATCHES_SCAN: u32 = 14;
+    pub const MATCH_AT: u32 = 15;
+    pub const PRECOND: u32 = 16;
+    pub const REPLACE_LOOP: u32 = 17;
+    pub const REPLACE_MULTIDIGIT: u32 = 18;
+    pub const ST_BACKREF_GET: u32 = 20;
+    pub const ST_BACKREF_SET: u32 = 21;
+    pub const ST_ANCHORED: u32 = 22;
+    pub const ST_PAREN_GET: u32 = 23;
+    pub const ST_PAREN_SET: u32 = 24;
+    pub const ST_PAREN_COUNT: u32 = 25;
+    pub const ST_CLEAR_BEYOND: u32 = 26;
+    pub const ST_SNAPSHOT: u32 = 27;
+    pub const ST_RESTORE: u32 = 28;
+    pub const BACKREF_ALLOC: u32 = 29;
+    pub const HIST_INS: u32 = 30;
+    pub const HIST_DUP: u32 = 31;
+    pub const SEQ_NEXT: u32 = 40;
+    pub const CHOICE_NEXT: u32 = 41;
+    pub const CAPTURE_NEXT: u32 = 42;
+    pub const GREEDY_REPEAT: u32 = 43;
+    pub const RELUCTANT_REPEAT: u32 = 44;
+    pub const RELUCTANT_FIXED: u32 = 45;
+    pub const GREEDY_FIXED: u32 = 46;
+    pub const UNAMBIGUOUS: u32 = 47;
+    pub const BACKREF_MATCH: u32 = 48;
+    pub const FORCE_PROGRESS: u32 = 49;
+    pub const ANALYZE_ZERO_LEN_GROUP: u32 = 50;
+    pub const BLOCK_LOOKUP_CALL: u32 = 60;
+    /// Probe only: fires inside the one-time table initialisation, which runs
+    /// under the `OnceLock`; a simulator must never switch threads here.
+    pub const BLOCK_TABLE_INIT: u32 = 61;
+    pub const PARSE_CLASS: u32 = 70;
+    pub const PARSE_ATOM: u32 = 71;
+    pub const PARSE_BRANCH: u32 = 72;
+    /// One more than the largest site id.
+    pub const LIMIT: u32 = 80;
+}
